@@ -53,17 +53,17 @@ theorem anintP1P2_is_the_integral (c : Consts) (pt : Pt)
     hence y = 1/2, K² = 3/32) satisfies the hypotheses -/
 example : ∃ (c : Consts) (pt : Pt), 0 ≤ (prepare c pt).K2 ∧ (prepare c pt).intP1P2 ≠ 0 ∧
     (prepare c pt).y ≠ 0 ∧ 1 + (prepare c pt).eps2 ≠ 0 := by
-  refine ⟨⟨0, 0, 1, 1⟩, ⟨1, 1/2, -1/2, 0, 0, 0, 0, 0, 0, 1, 4, 0, 0, 0, 0, 0, 0, 0, 0, 0, 0, 0⟩, ?_⟩
-  have hy : (prepare ⟨0, 0, 1, 1⟩ ⟨1, 1/2, -1/2, 0, 0, 0, 0, 0, 0, 1, 4, 0, 0, 0, 0, 0, 0, 0, 0, 0, 0, 0⟩).y = 1/2 := by
+  refine ⟨⟨0, 0, 1, 1⟩, { Pt.zero with Q2 := 1, xB := 1/2, t := -1/2, W := 1, s := 4 }, ?_⟩
+  have hy : (prepare ⟨0, 0, 1, 1⟩ { Pt.zero with Q2 := 1, xB := 1/2, t := -1/2, W := 1, s := 4 }).y = 1/2 := by
     simp only [prepare]; norm_num
-  have he : (prepare ⟨0, 0, 1, 1⟩ ⟨1, 1/2, -1/2, 0, 0, 0, 0, 0, 0, 1, 4, 0, 0, 0, 0, 0, 0, 0, 0, 0, 0, 0⟩).eps2 = 0 := by
+  have he : (prepare ⟨0, 0, 1, 1⟩ { Pt.zero with Q2 := 1, xB := 1/2, t := -1/2, W := 1, s := 4 }).eps2 = 0 := by
     simp only [prepare]; norm_num
-  have hK : (prepare ⟨0, 0, 1, 1⟩ ⟨1, 1/2, -1/2, 0, 0, 0, 0, 0, 0, 1, 4, 0, 0, 0, 0, 0, 0, 0, 0, 0, 0, 0⟩).K2 = 3/32 := by
+  have hK : (prepare ⟨0, 0, 1, 1⟩ { Pt.zero with Q2 := 1, xB := 1/2, t := -1/2, W := 1, s := 4 }).K2 = 3/32 := by
     simp only [prepare, K2, tmin, ksqrt]; norm_num
-  have hI : (prepare ⟨0, 0, 1, 1⟩ ⟨1, 1/2, -1/2, 0, 0, 0, 0, 0, 0, 1, 4, 0, 0, 0, 0, 0, 0, 0, 0, 0, 0, 0⟩).intP1P2
+  have hI : (prepare ⟨0, 0, 1, 1⟩ { Pt.zero with Q2 := 1, xB := 1/2, t := -1/2, W := 1, s := 4 }).intP1P2
       = -2 * π * (47/64) / (1/2) ^ 2 := by
-    have : (prepare ⟨0, 0, 1, 1⟩ ⟨1, 1/2, -1/2, 0, 0, 0, 0, 0, 0, 1, 4, 0, 0, 0, 0, 0, 0, 0, 0, 0, 0, 0⟩).intP1P2 =
-        anintP1P2 ⟨0, 0, 1, 1⟩ (prepare ⟨0, 0, 1, 1⟩ ⟨1, 1/2, -1/2, 0, 0, 0, 0, 0, 0, 1, 4, 0, 0, 0, 0, 0, 0, 0, 0, 0, 0, 0⟩) := rfl
+    have : (prepare ⟨0, 0, 1, 1⟩ { Pt.zero with Q2 := 1, xB := 1/2, t := -1/2, W := 1, s := 4 }).intP1P2 =
+        anintP1P2 ⟨0, 0, 1, 1⟩ (prepare ⟨0, 0, 1, 1⟩ { Pt.zero with Q2 := 1, xB := 1/2, t := -1/2, W := 1, s := 4 }) := rfl
     rw [this]
     simp only [anintP1P2, hy, he, hK, kpi]
     simp only [prepare]
@@ -262,7 +262,7 @@ example : ∃ (c : Consts) (pt : Pt), (65.14079453579676 : ℝ) = π * c.alpha ^
     1 - pt.y + pt.y ^ 2 / 2 + pt.eps2 * pt.y ^ 2 / 4 ≠ 0 ∧ pt.xB ≠ 0 ∧ 1 - pt.xB ≠ 0 ∧ 2 - pt.xB ≠ 0 ∧ pt.Q2 ≠ 0 ∧
     2 - pt.xB + pt.t / pt.Q2 * pt.xB ≠ 0 ∧ 1 + pt.t / pt.Q2 * pt.xB ≠ 0 ∧ c.Mp2 ≠ 0 := by
   refine ⟨⟨1, 1, 1, 65.14079453579676 / π⟩,
-    ⟨4, 1/2, -1, 1/2, 1/4, 0, 0, 0, 0, 0, 0, 0, 0, 0, 0, 0, 0, 0, 0, 0, 0, 0⟩, ?_⟩
+    { Pt.zero with Q2 := 4, xB := 1/2, t := -1, y := 1/2, eps2 := 1/4 }, ?_⟩
   have hpi : π ≠ 0 := Real.pi_ne_zero
   refine ⟨?_, ?_, ?_, ?_, ?_, ?_, ?_, ?_, ?_, ?_, ?_, ?_⟩
   · field_simp
